@@ -271,7 +271,8 @@ pub fn rand_cfg<R: Rng>(rng: &mut R, kt_start: f64, max_steps: u64) -> OptCfg {
         kt_start,
         kt_finish: [None, Some(0.), Some(1e-3), Some(0.1), Some(10.)][rng.gen_range(0, 5)],
         kt_ratio: [None, None, Some(0.), Some(0.1), Some(0.5), Some(1.)][rng.gen_range(0, 6)],
-        max_step_size: 10f64.powf(rng.gen_range(-4., 0.)),
+        // (occasionally moves at the resolution of the floats themselves)
+        max_step_size: if rng.gen_range(0, 12) == 0 { 10f64.powf(rng.gen_range(-17., -12.)) } else { 10f64.powf(rng.gen_range(-4., 0.)) },
         seed: rng.gen::<u32>() as u64,
         convergence: [None, None, Some(0.), Some(1e-6), Some(1.)][rng.gen_range(0, 5)],
     }
